@@ -62,6 +62,7 @@ def check(prog, rep):
     rule_identity(prog, rep)
     rule_first_wins(prog, rep)
     rule_flush(prog, rep)
+    rule_every_record_kept(prog, rep)
     rule_models(prog, rep)
     rule_water(prog, rep)
 
@@ -412,6 +413,63 @@ def _block_of(stmt):
             if stmt in h.body:
                 return h.body
     return None
+
+
+# ------------------------------------------------------------------------------------- R10
+def rule_every_record_kept(prog, rep):
+    """Every coordinate record that is read reaches the pending residue: no filter between reader and grouping."""
+    from ..core import eval_formula, formula_atoms, reach_formula
+    import itertools
+    r = rep.rule("R10", "every ATOM/HETATM record read is appended to a residue (no filter on altLoc, occupancy, element, ...)", floor=2)
+    init = prog.func("biomolecule.py", "Biomolecule.__init__").node
+    loops = [s for s in init.body if isinstance(s, ast.For) and U(s.iter) == "pdblist"]
+    main = None
+    for lp in loops:
+        if any(U(c.func) == "residue.append" for c in calls_in(lp)):
+            main = lp
+    if main is None:
+        raise AnalysisError("Biomolecule.__init__: record loop with residue.append not found")
+    app = [s for s in iter_stmts(main.body) if isinstance(s, ast.Expr) and isinstance(s.value, ast.Call) and U(s.value.func) == "residue.append"]
+    where = f"pdb2pqr/biomolecule.py:{app[0].lineno} (Biomolecule.__init__)"
+    f = reach_formula(app[0], main)
+    atoms = formula_atoms(f)
+    arm = [a for a in atoms if "isinstance(record, (pdb.ATOM, pdb.HETATM))" in a or "isinstance(record, (pdb.HETATM, pdb.ATOM))" in a]
+    others = [a for a in atoms if a not in arm]
+    leak = None
+    for vals in itertools.product((True, False), repeat=len(others)):
+        asg = dict(zip(others, vals))
+        asg.update({a: True for a in arm})
+        if not eval_formula(f, asg):
+            leak = {k: v for k, v in asg.items() if k in others}
+            break
+    r.add("append-unconditional", bool(arm) and leak is None and U(app[0].value.args[0]) == "record",
+          f"within the coordinate-record arm the append is reached for every outcome of the other tests {others}" if leak is None else
+          f"a coordinate record is dropped when {leak}", where)
+    # the record loop of the reader: only blank lines are skipped
+    rd = prog.func("pdb.py", "read_pdb").node
+    rl = [s for s in rd.body if isinstance(s, (ast.While, ast.For))][-1]
+    conts = [s for s in iter_stmts(rl.body) if isinstance(s, ast.Continue) and enclosing_loops(s)[0] is rl]
+    bad = []
+    for c in conts:
+        g = [(U(t), p) for t, p in guards_of(c, rl)]
+        if not (g and g[-1] in (("line == ''", True), ("not line", True)) and len([x for x in g if x[1]]) >= 1
+                and all(t in ("line == ''", "not line") for t, p in g)):
+            bad.append(g)
+    r.add("reader-skips-only-blank-lines", not bad, f"continue statements of the read loop: {len(conts)}, all guarded by the blank-line test"
+          if not bad else f"the read loop skips lines under {bad[0]}", f"pdb2pqr/pdb.py:{rl.lineno} (read_pdb)")
+    # get_molecule / setup_molecule / drop_water are the only stages between reader and grouping
+    md = prog.func("main.py", "main_driver").node
+    chain = []
+    for st in md.body:
+        t = U(st)
+        if "pdblist" in t:
+            chain.append(t.splitlines()[0][:70])
+    filt = [c for c in chain if "pdblist =" in c and "get_molecule" not in c and "drop_water" not in c]
+    r.add("no-other-filter", not filt, f"statements of main_driver that rebind the record list: {[c for c in chain if 'pdblist =' in c or 'pdblist, ' in c]}",
+          f"pdb2pqr/main.py:{md.lineno} (main_driver)")
+    sm = prog.func("main.py", "setup_molecule").node
+    r.add("setup-passes-all", "biomol.Biomolecule(pdblist, definition)" in U(sm), "setup_molecule hands the whole record list to Biomolecule",
+          f"pdb2pqr/main.py:{sm.lineno} (setup_molecule)")
 
 
 # ------------------------------------------------------------------------------------- R8
